@@ -348,7 +348,7 @@ fn exec_op_inner(re: &Regex, text: &str, op: &Op) -> String {
             }
         }
         OpKind::CapturesOutliveRegex => {
-            let c = re.clone();
+            let c = clone_unless_reference(re);
             let names: Vec<Option<String>> = c.capture_names().map(|n| n.map(|s| s.to_string())).collect();
             match c.captures(text) {
                 Ok(Some(caps)) => {
@@ -372,7 +372,7 @@ fn exec_op_inner(re: &Regex, text: &str, op: &Op) -> String {
         }
         OpKind::Publish { .. } | OpKind::UseSlot { .. } => "n/a".to_string(),
         OpKind::CloneAndFind => {
-            let c = re.clone();
+            let c = clone_unless_reference(re);
             sched::yield_now(SITE_OP_BOUNDARY);
             let r = match c.captures(text) {
                 Ok(Some(caps)) => fmt_caps(&caps, &c),
@@ -386,6 +386,19 @@ fn exec_op_inner(re: &Regex, text: &str, op: &Op) -> String {
     }
 }
 
+thread_local! {
+    /// set while the reference results are computed: "through clones obtain exactly the
+    /// single-threaded result" is judged against the ORIGINAL used alone, so the reference run of an
+    /// operation that works through a private clone works through a second regex built from the
+    /// same specification instead (a clone that differs from its original — or a `clone()` that
+    /// panics — would otherwise be its own reference)
+    static REFERENCE_FRESH: std::cell::RefCell<Option<Regex>> = const { std::cell::RefCell::new(None) };
+}
+
+fn clone_unless_reference(re: &Regex) -> Regex {
+    REFERENCE_FRESH.with(|r| r.borrow_mut().take()).unwrap_or_else(|| re.clone())
+}
+
 // ------------------------------------------------------------------------------------------------
 // reference (solo) results and the concurrent run
 
@@ -397,9 +410,14 @@ pub fn solo_results(sc: &Scenario) -> Option<Vec<Vec<String>>> {
         let mut v = Vec::new();
         for op in ops {
             let re = sc.regexes[op.re].build()?;
+            if matches!(op.kind, OpKind::CloneAndFind | OpKind::CapturesOutliveRegex) {
+                let second = sc.regexes[op.re].build()?;
+                REFERENCE_FRESH.with(|r| *r.borrow_mut() = Some(second));
+            }
             budget::arm(SOLO_INSN_BUDGET, 100_000);
             v.push(exec_op(&re, &sc.texts[op.text], op));
             budget::disarm();
+            REFERENCE_FRESH.with(|r| *r.borrow_mut() = None);
         }
         out.push(v);
     }
